@@ -704,7 +704,7 @@ def binary_case_default(ctx, rep, case):
     rep.count("binary:mode=" + " ".join(case["mode"])[:40])
     if rc1 != 0 or rc2 != 0 or rc1 != rc2:
         rep.violation("binary:exit-status", f"delta exit status {rc1}/{rc2} on plain/coloured input",
-                      dict(kind="binary", sub="default", stderr=(e1 + e2)[-400:].decode("utf-8", "replace"), **case))
+                      dict(kind="binary", sub="default", stderr=(e1 + e2)[-400:].decode("utf-8", "replace"), case=case))
         return
     # rows of raw-styled elements keep the input colouring by design: with the default
     # `commit-style = raw` that is the commit line, which must then appear exactly as it came in
@@ -719,7 +719,7 @@ def binary_case_default(ctx, rep, case):
                 sig = "truncate:text-after-cut"
         rep.violation(sig, "output for git-coloured input differs from output for the uncoloured input",
                       dict(kind="binary", sub="default", row=d[0] if d else None,
-                           plain_row=repr(d[1]) if d else None, coloured_row=repr(d[2]) if d else None, **case))
+                           plain_row=repr(d[1]) if d else None, coloured_row=repr(d[2]) if d else None, case=case))
 
 
 def binary_case_raw(ctx, rep, case):
@@ -734,24 +734,24 @@ def binary_case_raw(ctx, rep, case):
     rep.count("binary:raw-mode")
     if rc1 != 0 or rc2 != 0:
         rep.violation("binary:exit-status", f"delta exit status {rc1}/{rc2}",
-                      dict(kind="binary", sub="raw", **case))
+                      dict(kind="binary", sub="raw", case=case))
         return
     if "--file-style" in case["mode"]:
         # header elements are raw: same text, and every coloured header line appears verbatim
         if strip_py(o1) != strip_py(o2):
             rep.violation("raw-headers:text-differs", "raw header styles: visible text differs between coloured and plain input",
-                          dict(kind="binary", sub="raw", **case))
+                          dict(kind="binary", sub="raw", case=case))
         out_lines = set(o2.split(b"\n"))
         for (k, _), c in zip(rows, coloured):
             if k in ("meta", "commit", "hunk") and c.encode() not in out_lines:
                 rep.violation("raw-headers:colouring-lost", "a raw-styled header line did not keep its input colouring",
-                              dict(kind="binary", sub="raw", line=c, **case))
+                              dict(kind="binary", sub="raw", line=c, case=case))
                 break
     else:
         # minus/plus raw: the coloured run shows the input colours on those lines
         if strip_py(o1) != strip_py(o2):
             rep.violation("raw-lines:text-differs", "raw minus/plus styles: visible text differs between coloured and plain input",
-                          dict(kind="binary", sub="raw", **case))
+                          dict(kind="binary", sub="raw", case=case))
             return
         want = {"-": ("p", 1), "+": ("p", 2)}
         decoded = [decode_cells(l) for l in o2.split(b"\n")]
@@ -767,7 +767,7 @@ def binary_case_raw(ctx, rep, case):
                         break
                 if not hit:
                     rep.violation("raw-lines:colouring-lost", "a raw-styled changed line did not keep its input colour",
-                                  dict(kind="binary", sub="raw", line=k + t, **case))
+                                  dict(kind="binary", sub="raw", line=k + t, case=case))
                     break
 
 
@@ -800,7 +800,7 @@ def binary_case_moved(ctx, rep, case):
              sample=dict(op="binary moved-line colours", params=params, line=ml, mode=mode))
     rep.count("binary:moved")
     if rc != 0:
-        rep.violation("binary:exit-status", f"delta exit status {rc}", dict(kind="binary", sub="moved", **case))
+        rep.violation("binary:exit-status", f"delta exit status {rc}", dict(kind="binary", sub="moved", case=case))
         return
     got = None
     for l in out.split(b"\n"):
@@ -813,7 +813,7 @@ def binary_case_moved(ctx, rep, case):
     if got != {want.key()}:
         rep.violation("moved-colours:" + ("mapped" if case.get("map") else re.sub(r"\d+", "N", params)[:24]),
                       "a moved-line colour is not shown with exactly the input rendition",
-                      dict(kind="binary", sub="moved", want=want.enc(), got=repr(got), **case))
+                      dict(kind="binary", sub="moved", want=want.enc(), got=repr(got), case=case))
 
 
 def moved_params(rng):
@@ -844,8 +844,10 @@ def binary_cases(ctx):
         singles = [p for i, p in enumerate(singles) if i % 4 == d % 4 or len(p) <= 3]
     for p in singles + [moved_params(rng) for _ in range(ctx.n(80, 3000))]:
         kind = rng.choice("-+")
-        if p in ("31", "32") and ((kind == "-") == (p == "31")):
-            kind = "+" if kind == "-" else "-"   # git's own colour for that side is not a moved colour
+        k = apply_sgr(Rend(), parse_params(p)).key()
+        own = ((False,) * 8, ("p", 1 if kind == "-" else 2), None)
+        if k == own:
+            kind = "+" if kind == "-" else "-"   # git's own colour for that side (31 / 38;5;1 …) is not a moved colour
         cases.append(("moved", dict(params=p, kind=kind, form=rng.choice(["per-line", "per-marker"]),
                                     mode=rng.choice(MOVED_MODES))))
     # git's own colour plus something else is a moved-line style too (bold red on a removed line …)
@@ -886,8 +888,7 @@ def binary_run(ctx, rep):
 
 
 def binary_replay(ctx, rep, case):
-    c = {k: v for k, v in case.items() if k not in ("kind", "sub", "row", "plain_row", "coloured_row", "stderr", "want", "got", "line")}
-    binary_one(ctx, rep, case.get("sub", "default"), c)
+    binary_one(ctx, rep, case.get("sub", "default"), case["case"])
 
 
 def run(ctx, rep):
